@@ -1,18 +1,184 @@
 /-
 Props/C12 — property theorems for C12 (flashing writes exactly the image, nowhere else).
+
+Model (Model/C12): `Bootloader._internal_flash`, `Cloader.upload_buffer`, `Cloader.write_flash` over an abstract
+link whose far end is a parameter.  Environment (Spec/C12): the bootloader target (buffers + flash as byte maps,
+firmware-side decoder) behind a link with one `Outcome` per flash-write transmission (command lost / executed,
+any reply packet or none, reply in time or late).  Helper lemmas: Proofs/C12, C12Write, C12Flash, C12Retry.
 -/
-import CfVerif.Proofs.C12
+import CfVerif.Proofs.C12Flash
+import CfVerif.Proofs.C12Retry
 namespace CfVerif.C12
 open CfVerif
 
 variable {σ : Type}
 
-/-- An image that does not fit between the EFFECTIVE start page (the override when given) and the end of the
-flash is refused before anything is transmitted, whatever the peer. -/
+/-! ## Gen obligations: what the hand-written model assumes about the current source -/
+
+/-- `upload_buffer`: header layout and argument order of both `struct.pack` calls, the running address, the
+loop shape, where the packets are sent. -/
+theorem gen_upload :
+    Gen.C12.uploadFmt = "=BBHH" ∧
+    Gen.C12.uploadArgs0 = ["target_id", "20", "page", "address"] ∧
+    Gen.C12.uploadArgs1 = ["target_id", "20", "page", "i + address + 1"] ∧
+    Gen.C12.uploadLoopIter = "i in range(0, len(buff))" ∧ Gen.C12.uploadAppendArgs = ["buff[i]"] ∧
+    Gen.C12.uploadCountUpdates = ["count = 0", "count += 1", "count = 0"] ∧
+    Gen.C12.uploadSends = ["self.link.send_packet(pk)", "self.link.send_packet(pk)"] ∧
+    Gen.C12.uploadHeaderArgs = ["255"] := by decide
+
+/-- a full packet (6 header bytes + `uploadFlushAt + 1` data bytes) fits the 31 bytes after the CRTP header -/
+theorem gen_upload_room : Gen.C12.uploadFlushAt + 1 + 6 ≤ 31 ∧
+    (∀ c, Gen.C12.uploadFull c = decide (c > Gen.C12.uploadFlushAt)) := ⟨by decide, fun _ => rfl⟩
+
+/-- `write_flash`: the downlink flush polls with timeout 0 until `None`; the retry loop's test, its blocking
+receive, the counter; the command layout; how the result is read from the reply. -/
+theorem gen_write_flash :
+    Gen.C12.flushRecvArgs = ["0", "0"] ∧ Gen.C12.flushLoopTest = "pk is not None" ∧
+    Gen.C12.flushLoopBody = ["pk = self.link.receive_packet(0)"] ∧
+    Gen.C12.retryRecvArg = "2.5" ∧ Gen.C12.retryCounterUpdates = ["retry_counter -= 1"] ∧
+    Gen.C12.replyArgs = ["pk.data[0:2]"] ∧
+    Gen.C12.writeFmt = "<BBHHH" ∧ Gen.C12.writeArgs = ["addr", "24", "page_buffer", "target_page", "page_count"] ∧
+    Gen.C12.writeIfTests = ["retry_counter < 0"] ∧ Gen.C12.writeReturns = ["False", "pk.data[2] == 1"] ∧
+    Gen.C12.writeErrorCode = ["-1", "pk.data[3]"] ∧ Gen.C12.writeSends = ["self.link.send_packet(pk)"] ∧
+    Gen.C12.writeHeaderArgs = ["255"] := by decide
+
+/-- the test of the retry loop, exactly as the model's `needRetry` / `retryLoop` read it -/
+theorem gen_retry_test : Gen.C12.retryLoopTest =
+    "(not pk or pk.header != 255 or len(pk.data) < 2 or (struct.unpack('<BB', pk.data[0:2]) != (addr, 24))) and retry_counter >= 0" := rfl
+
+/-- `_internal_flash`: start-page override, the division that raises for an empty image, call arguments of
+`upload_buffer` / `write_flash`, counter updates, both flush failures raise. -/
+theorem gen_internal_flash :
+    Gen.C12.flashAssigns = ["image = artifact.content", "t_data = target_info", "start_page = target_info.start_page",
+      "factor = 100.0 * t_data.page_size / len(image)", "start_page = page_override"] ∧
+    Gen.C12.terminateTest = "self.terminate_flashing_cb and self.terminate_flashing_cb()" ∧
+    Gen.C12.uploadCallArgs0 = ["t_data.addr", "ctr", "0"] ∧ Gen.C12.uploadCallArgs1 = ["t_data.addr", "ctr", "0"] ∧
+    Gen.C12.ctrUpdates = ["ctr = 0", "ctr += 1", "ctr = 0"] ∧
+    Gen.C12.flushCallArgs0 = ["t_data.addr", "0", "start_page + i - (ctr - 1)", "ctr"] ∧
+    Gen.C12.flushCallArgs1 = ["t_data.addr", "0", "start_page + int((len(image) - 1) / t_data.page_size) - (ctr - 1)", "ctr"] ∧
+    Gen.C12.flushFailAction = ["raise", "raise"] := ⟨rfl, rfl, rfl, rfl, rfl, rfl, rfl, rfl⟩
+
+/-- constants the proofs rely on: CRTP header of the bootloader port, command bytes as the target decodes them,
+reply recognition, 5 + 1 attempts. -/
+theorem gen_constants :
+    bootHdr = 0xFF ∧ Gen.C12.uploadCmd = 0x14 ∧ Gen.C12.uploadCmd1 = 0x14 ∧ Gen.C12.writeCmd = 0x18 ∧
+    Gen.C12.replyCmd = 0x18 ∧ Gen.C12.replyHeader = 0xFF ∧ Gen.C12.replyMinLen = 2 ∧ Gen.C12.retryInit = 5 := by decide
+
+/-! ## The property -/
+
+/-- **Refused if too big.**  An image that does not fit between the EFFECTIVE start page (the override when one is
+given) and the end of the flash is refused before anything is transmitted — for every peer, geometry and image. -/
 theorem refused_if_too_big (P : Peer σ) (L : Link σ) (g : Geom) (image : List UInt8) (ov : Option Int)
     (term : List Bool) (hlen : 0 < image.length)
     (h : ((g.flashPages : Int) - effStart g ov) * g.pageSize < image.length) :
     internalFlash P L g image ov term = (L, .notEnoughSpace) :=
   refused_aux P L g image ov term hlen h
+
+/-- **Upload covers every byte exactly once.**  For every peer: `upload_buffer` succeeds and transmits `buff` cut into
+consecutive load-buffer packets (all but the last carry exactly `uploadFlushAt + 1 = 25` bytes, the last the
+remaining 0..24); every packet has the bootloader header and at most 31 data bytes; and the byte writes the target
+performs are exactly `buff[0]` at `address`, `buff[1]` at `address + 1`, ... — each byte once, at its offset. -/
+theorem upload_covers_once (P : Peer σ) (L : Link σ) (tid page address : Nat) (buff : List UInt8)
+    (ht : tid < 256) (hp : page < 65536) (hfit : address + buff.length < 65536) :
+    ∃ chunks : List (List UInt8),
+      uploadBuffer P L tid page address buff = (sendAll P L (loadPkts tid page address chunks), .ok ()) ∧
+      chunks.flatten = buff ∧
+      (∀ c ∈ chunks.dropLast, c.length = Gen.C12.uploadFlushAt + 1) ∧
+      (∀ c ∈ chunks.getLast?, c.length ≤ Gen.C12.uploadFlushAt) ∧
+      (∀ p ∈ loadPkts tid page address chunks, p.hdr = 0xFF ∧ p.data.length ≤ 31) ∧
+      byteWrites tid (loadPkts tid page address chunks) = (buff.zipIdx address).map fun x => (page, x.2, x.1) := by
+  obtain ⟨chunks, hfl, _, hlen, hinit, hlast, hrun⟩ := uploadBuffer_spec P L tid page address buff ht hp hfit
+  refine ⟨chunks, hrun, hfl, hinit, hlast, ?_, ?_⟩
+  · exact loadPkts_hdr_len tid page chunks hlen address
+  · rw [byteWrites_loadPkts tid page ht hp chunks address (by rw [hfl]; exact hfit), hfl]
+
+/-- **Flash exact.**  Environment: the Spec target behind a link with ANY outcome script whose positive replies are
+genuine, ANY stale content in the receive queue, no reply still in flight.  Geometry: positive page size and buffer
+count, fields fit 16 bits, target id a byte; image of ≥ 1 byte that fits from the effective start page `S`.
+Then, with `n` the number of pages of the image:
+(1) whatever the result, flash pages outside `[S, S+n)` are untouched, `S + n ≤ flash_pages`, and every packet
+    transmitted is a command within the page buffers and within `[S, S+n)` (load packets ≤ 31 bytes);
+(2) if the run returns normally, flash holds the image: byte `k` at page `S + k / page_size`, offset `k % page_size`. -/
+theorem flash_exact (g : Geom) (tid : Nat) (image : List UInt8) (ov : Option Int) (term : List Bool) (L : Link Env)
+    (haddr : g.addr = (tid : Int)) (htid : tid < 256)
+    (hps : 0 < g.pageSize ∧ g.pageSize < 65536) (hbp : 0 < g.bufferPages ∧ g.bufferPages < 65536)
+    (hfp : g.flashPages < 65536) (hlen : 0 < image.length) (hS : 0 ≤ effStart g ov)
+    (hfit : (image.length : Int) ≤ ((g.flashPages : Int) - effStart g ov) * g.pageSize)
+    (hlate : L.st.lateQ = []) (hgen : ScriptGenuine tid L.st.script) :
+    let S := (effStart g ov).toNat
+    let n := nPages image.length g.pageSize
+    let R := internalFlash (targetPeer tid) L g image ov term
+    (∀ q, q < S ∨ S + n ≤ q → R.1.st.tgt.flash q = L.st.tgt.flash q) ∧ S + n ≤ g.flashPages ∧
+    (∃ new, R.1.sent = L.sent ++ new ∧ ∀ p ∈ new, CmdWithin g tid S n p) ∧
+    (R.2 = .done → ∀ k (hk : k < image.length),
+      R.1.st.tgt.flash (S + k / g.pageSize) (k % g.pageSize) = image[k]) := by
+  intro S n R
+  have hSe : effStart g ov = (S : Int) := by simp only [S]; omega
+  have hf : Fits g tid S image := fits_of_guard g tid S image haddr htid hps hbp hfp hlen (by rw [← hSe]; exact hfit)
+  obtain ⟨L', r, hrun, hsafe, hok⟩ := internalFlash_env hf ov hSe term L hlate hgen
+  have hR : R = (L', r) := hrun
+  rw [hR]
+  refine ⟨hsafe.out, hf.room, hsafe.sent, ?_⟩
+  intro hd k hk
+  rw [hok hd k hk]
+  simp [hk]
+
+/-- **Bounded retries.**  For every peer and all arguments, `write_flash` transmits its command at most
+`retryInit + 1 = 6` times and transmits nothing else. -/
+theorem write_flash_attempts_bounded (P : Peer σ) (L : Link σ) (addr pb tp pc : Int) :
+    ∃ k, k ≤ 6 ∧ ((writeFlash P L addr pb tp pc).1).sent =
+      L.sent ++ List.replicate k ⟨0xFF, writeDataOr addr pb tp pc⟩ := by
+  obtain ⟨k, hk, hs⟩ := writeFlash_sent P L addr pb tp pc
+  exact ⟨k, by have := gen_constants.2.2.2.2.2.2.2; omega, by rw [hs, bootHdr_eq]⟩
+
+/-- **Failure when unanswered.**  Against the Spec environment with ANY script (no assumption): `write_flash` returns
+True only if one of the first 5 transmissions of this call met an outcome whose reply passes for a positive
+flash-write reply.  Hence a command whose first five transmissions are lost, unanswered, answered negatively or
+answered by unrelated packets is reported as failed (also when a positive reply to the sixth arrives). -/
+theorem write_flash_ok_only_if_acked (tid bp fp cnt : Nat) (ht : tid < 256) (hb : bp < 65536) (hf : fp < 65536)
+    (hn : cnt < 65536) (L : Link Env) (hlate : L.st.lateQ = []) (L' : Link Env) (c : Int)
+    (h : writeFlash (targetPeer tid) L (tid : Int) (bp : Int) (fp : Int) (cnt : Int) = (L', .ok (true, c))) :
+    ∃ i p, i < 5 ∧ (outcomeAt tid L.st.script i).reply = some p ∧ Positive tid p := by
+  obtain ⟨i, p, hi, hr, hp⟩ := writeFlash_acked tid bp fp cnt ht hb hf hn L hlate L' c h
+  exact ⟨i, p, by have := gen_constants.2.2.2.2.2.2.2; omega, hr, hp⟩
+
+/-! ## Non-vacuity: concrete instances of the hypotheses and of the conclusions
+
+Page size 4, 3 buffers, 20 flash pages, start page 2, a 17-byte image (5 pages: one full buffer round and a final
+partial flush with a 1-byte last page); a stale positive reply sits in the receive queue at the start; the first
+flush meets: command lost, executed with a late reply, executed with the reply lost (the third attempt receives
+the late reply of the second); the second flush is answered at once. -/
+
+def exTarget : Target := { buf := fun _ _ => 0, flash := fun q o => UInt8.ofNat (q + o) }
+def exGeom : Geom := { addr := 255, pageSize := 4, bufferPages := 3, flashPages := 20, startPage := 2 }
+def exImage : List UInt8 := (List.range 17).map fun k => UInt8.ofNat (100 + k)
+def exScript : List Outcome := [.cmdLost, .okLate 255, .replyLost]
+def exLink : Link Env :=
+  { st := { tgt := exTarget, script := exScript, lateQ := [] }, inbox := [wfReply 255 1 0], sent := [] }
+
+example : ScriptGenuine 255 exScript := by decide
+example : (exImage.length : Int) ≤ ((exGeom.flashPages : Int) - effStart exGeom none) * exGeom.pageSize := by decide
+example : (exImage.length : Int) ≤ ((exGeom.flashPages : Int) - effStart exGeom (some 15)) * exGeom.pageSize ∧
+    ((exGeom.flashPages : Int) - effStart exGeom (some 16)) * exGeom.pageSize < exImage.length := by decide
+set_option maxRecDepth 100000 in
+example : (internalFlash (targetPeer 255) exLink exGeom exImage none []).2 = .done ∧
+    (internalFlash (targetPeer 255) exLink exGeom exImage none []).1.sent.length = 9 ∧
+    (internalFlash (targetPeer 255) exLink exGeom exImage none []).1.st.tgt.flash 6 0 = 116 ∧
+    (internalFlash (targetPeer 255) exLink exGeom exImage none []).1.st.tgt.flash 7 0 = 7 := by decide
+set_option maxRecDepth 100000 in
+example : (internalFlash (targetPeer 255) exLink exGeom exImage (some 16) []).2 = .notEnoughSpace := by decide
+/-- six unanswered transmissions: the first flush fails with error code -1 after exactly 6 attempts, nothing follows -/
+example : (internalFlash (targetPeer 255)
+      { exLink with st := { tgt := exTarget, script := List.replicate 6 .replyLost, lateQ := [] } } exGeom exImage none []).2
+    = .flashFailed (-1) ∧
+    ((internalFlash (targetPeer 255)
+      { exLink with st := { tgt := exTarget, script := List.replicate 6 .replyLost, lateQ := [] } } exGeom exImage none []).1.sent.drop 3)
+    = List.replicate 6 (writePkt 255 0 2 3) := by decide
+/-- the quirk: a positive reply to the sixth attempt is reported as a failure -/
+example : (writeFlash (targetPeer 255)
+      { exLink with st := { tgt := exTarget, script := List.replicate 5 .cmdLost ++ [.okNow 255], lateQ := [] } } 255 0 2 3).2
+    = .ok (false, -1) := by decide
+example : (uploadBuffer (targetPeer 255) exLink 255 1 0 (List.replicate 50 7)).1.sent.map (·.data.length) = [31, 31, 6] := by
+  decide
 
 end CfVerif.C12
